@@ -15,6 +15,7 @@ package main
 // This makes the rule independent of whether the test is written inline, in a loop, or in an extracted helper.
 
 import (
+	"os"
 	"fmt"
 
 	"golang.org/x/tools/go/ssa"
@@ -30,7 +31,8 @@ type lockedFact struct {
 
 type revalidator struct {
 	c    *pieceCtx
-	post map[string]int // 0 unknown/in progress (assume false), 1 true, 2 false
+	post map[string]int // 0 unknown, 1 true, 2 false
+	busy map[string]bool
 }
 
 func (c *pieceCtx) reval() *revalidator {
@@ -45,6 +47,11 @@ func (rv *revalidator) reqs(f lockedFact, depth int) []edgeReq {
 	return []edgeReq{{
 		Name: f.name,
 		Match: func(cond ssa.Value, pol bool) bool {
+			// the outcome of a boolean helper: `if !ps.waitIdle(p) { return }` — on the edge where the helper returned
+			// pol the fact holds when every return of the helper that can yield pol has it established
+			if call, isCall := cond.(*ssa.Call); isCall && rv.outcomeEstablishes(call, pol, f, depth) {
+				return true
+			}
 			if !f.edge(cond, pol) {
 				return false
 			}
@@ -77,7 +84,14 @@ func (rv *revalidator) callEstablishes(in ssa.Instruction, f lockedFact, depth i
 	case 2:
 		return false
 	}
-	rv.post[key] = 2 // recursion: assume not established
+	if rv.busy == nil {
+		rv.busy = map[string]bool{}
+	}
+	if rv.busy[key] {
+		return false // recursion: assume not established
+	}
+	rv.busy[key] = true
+	defer delete(rv.busy, key)
 	ok := true
 	for _, ret := range returnsOf(h) {
 		if good, _ := rv.establishedAt(ret, f, depth+1); !good {
@@ -87,8 +101,65 @@ func (rv *revalidator) callEstablishes(in ssa.Instruction, f lockedFact, depth i
 	}
 	if ok {
 		rv.post[key] = 1
+	} else if depth == 0 {
+		rv.post[key] = 2 // a failure found under a depth cut is not final
 	}
 	return ok
+}
+
+// outcomeEstablishes: call is a call of a package-local helper with one boolean result; every return of the helper that
+// can yield `pol` has the fact established (since the last lock release inside the helper, or inherited from the
+// helper's callers when it is entered locked).
+func (rv *revalidator) outcomeEstablishes(call *ssa.Call, pol bool, f lockedFact, depth int) bool {
+	h := call.Call.StaticCallee()
+	if h == nil || relPkg(h) != rv.c.la.pkg || h.Blocks == nil || depth > 3 || call.Call.IsInvoke() {
+		return false
+	}
+	if res := h.Signature.Results(); res.Len() != 1 || !isBoolType(res.At(0).Type()) {
+		return false
+	}
+	key := fmt.Sprintf("%p/%s/%v", h, f.name, pol)
+	switch rv.post[key] {
+	case 1:
+		return true
+	case 2:
+		return false
+	}
+	if rv.busy == nil {
+		rv.busy = map[string]bool{}
+	}
+	if rv.busy[key] {
+		return false // recursion: assume not established
+	}
+	rv.busy[key] = true
+	defer delete(rv.busy, key)
+	ok, any := true, false
+	for _, ret := range returnsOf(h) {
+		res := retResults(ret)
+		if len(res) != 1 {
+			ok = false
+			break
+		}
+		if b, isb := constBool(res[0]); isb && b != pol {
+			continue
+		}
+		any = true
+		if good, where := rv.establishedAt(ret, f, depth+1); !good {
+			if os.Getenv("STORDBG") != "" {
+				fmt.Fprintf(os.Stderr, "outcome %s pol=%v fact=%s depth=%d: return at %s not established: %s\n", fname(h), pol, f.name, depth, rv.c.p.pos(ret.Pos()), where)
+			}
+			ok = false
+			break
+		}
+	}
+	if ok && any {
+		rv.post[key] = 1
+		return true
+	}
+	if depth == 0 {
+		rv.post[key] = 2 // a failure found under a depth cut is not final
+	}
+	return false
 }
 
 // establishedAt: see the file comment. Returns false with the start of an offending path.
